@@ -20,7 +20,6 @@ from asyncio.coroutines import iscoroutine, iscoroutinefunction
 from asyncio.exceptions import CancelledError
 from asyncio.locks import Event, Semaphore
 from asyncio.tasks import Task, create_task, gather
-from contextlib import suppress
 from math import inf
 from typing import (
     TYPE_CHECKING,
@@ -639,12 +638,14 @@ class BaseTaskPool:
         Args:
             return_exceptions (optional): Passed directly into `gather`.
         """
-        with suppress(CancelledError):
-            await gather(
-                *self._meta_tasks_cancelled,
-                *self._pop_ended_meta_tasks(),
-                return_exceptions=return_exceptions,
-            )
+        # A cancelled meta task raises `CancelledError` when it is awaited; that
+        # is collected as a result here, because suppressing the exception
+        # around the `await` would also swallow a cancellation of the caller.
+        await gather(*self._meta_tasks_cancelled, return_exceptions=True)
+        await gather(
+            *self._pop_ended_meta_tasks(),
+            return_exceptions=return_exceptions,
+        )
         self._meta_tasks_cancelled.clear()
         # Only the tasks gathered here may be forgotten afterwards; tasks that
         # end or get cancelled while we are waiting must stay registered.
